@@ -15,6 +15,11 @@ fn opts_of(cfg: &serde_json::Value) -> Opts {
         one_sequence: cfg["one_sequence"].as_bool().unwrap_or(false),
         file_index: cfg["file_index"].as_u64().unwrap_or(0) as u8,
         low_pc: if cfg["low_pc"].as_str() == Some("entry") { LowPc::Entry } else { LowPc::Body },
+        range_form: match cfg["range_form"].as_str() {
+            Some("addr") => wdwarf::RangeForm::Addr,
+            Some("unit-ranges") => wdwarf::RangeForm::UnitRanges,
+            _ => wdwarf::RangeForm::Offset,
+        },
     }
 }
 
@@ -238,6 +243,43 @@ pub fn check_case(c: &Case) -> CaseResult {
             }
         }
     }
+    // the unit's range list (one pair per input function, in input order)
+    if let Some(in_ranges) = &in_rb.unit_ranges {
+        let in_ranges = in_ranges.clone().unwrap_or_default();
+        let locals: Vec<u32> = a.funcs.iter().enumerate().filter(|(_, f)| f.body.is_some()).map(|(i, _)| i as u32).collect();
+        match &out_rb.unit_ranges {
+            None => bad("dwarf-unit-ranges-lost".into(), "the input unit has DW_AT_ranges, the output unit has none".into()),
+            Some(Err(e)) => bad("dwarf-unit-ranges-unreadable".into(), format!("gimli 0.32 cannot read the range list walrus emitted: {}", e)),
+            Some(Ok(out_ranges_list)) => {
+                let live: Vec<(u64, u64)> = out_ranges_list.iter().copied().filter(|(b, _)| !TOMB.contains(b)).collect();
+                let mut wanted: Vec<(u64, u64)> = vec![];
+                let mut reported_ends: Vec<u64> = vec![];
+                for (pos, fi) in locals.iter().enumerate() {
+                    if pos >= in_ranges.len() {
+                        break;
+                    }
+                    if let Some(fj) = maps.f(Space::Func, *fi) {
+                        let body = b.funcs[fj as usize].body.as_ref().unwrap();
+                        let want = (body.body.start - out_base, body.body.end - out_base);
+                        wanted.push(want);
+                        if !live.contains(&want) {
+                            reported_ends.push(want.1);
+                            bad(
+                                format!("dwarf-unit-range-wrong:edit-{}", edit),
+                                format!("function {} now occupies [{}, {}) but the unit's range list is {:?}", fi, want.0, want.1, out_ranges_list),
+                            );
+                        }
+                    }
+                }
+                for r2 in &live {
+                    // the wrong counterpart of a function already reported above is not reported twice
+                    if !wanted.contains(r2) && !(reported_ends.contains(&r2.1) && r2.0 < r2.1) && (r2.0 > r2.1 || inside_some_function(r2.0) || (r2.1 > r2.0 && inside_some_function(r2.1 - 1))) {
+                        bad("dwarf-unit-range-points-at-other-code".into(), format!("range list entry [{}, {}) corresponds to no surviving function's range yet lies in emitted code", r2.0, r2.1));
+                    }
+                }
+            }
+        }
+    }
     r
 }
 
@@ -281,6 +323,49 @@ pub fn cases(args: &Args) -> Vec<Case> {
             }
         }
     }
+    // function ends written as addresses: DW_AT_high_pc of class address, and a DW_AT_ranges list on the unit
+    for &n in if thorough { &[1usize, 2, 3, 4, 5][..] } else { &[1usize, 2, 3][..] } {
+        for &s in if thorough { &[8usize, 127, 128, 129][..] } else { &[8usize, 128][..] } {
+            for nopv in [false, true] {
+                for big in if n > 1 { vec![0, n - 1] } else { vec![0] } {
+                    for version in [4u16, 5] {
+                        for range_form in ["addr", "unit-ranges"] {
+                            for edit in ["none", "gc", "insert"] {
+                                let wasm = wgen::families::build_leb_x(n, big, s, nopv, edit == "gc");
+                                out.push(Case {
+                                    family: "dwarf".into(),
+                                    coords: format!("n={},big={},size={},nops={}", n, big, s, nopv),
+                                    wasm,
+                                    cfg: json!({"version": version, "file_index": 0, "one_sequence": false, "low_pc": "body", "edit": edit, "range_form": range_form}),
+                                });
+                            }
+                        }
+                    }
+                }
+            }
+        }
+    }
+    // functions with locals: the body does not start with its first instruction, and dropping
+    // unused locals / nops moves a function across a size-LEB boundary
+    for &n in &[1usize, 2, 3] {
+        for &s in if thorough { &[8usize, 126, 127, 128, 129, 130, 131, 132, 133, 134][..] } else { &[8usize, 128, 130, 133][..] } {
+            for nopv in [false, true] {
+                for locals_mode in [1u8, 2] {
+                    for big in if n > 1 { vec![0, n - 1] } else { vec![0] } {
+                        for edit in ["none", "gc", "insert"] {
+                            let wasm = wgen::families::build_leb_full(n, big, s, nopv, edit == "gc", 0, locals_mode);
+                            out.push(Case {
+                                family: "dwarf".into(),
+                                coords: format!("n={},big={},size={},nops={},locals={}", n, big, s, nopv, locals_mode),
+                                wasm,
+                                cfg: json!({"version": 4, "file_index": 0, "one_sequence": false, "low_pc": "body", "edit": edit, "range_form": "offset"}),
+                            });
+                        }
+                    }
+                }
+            }
+        }
+    }
     // the configuration-order case: preserve_code_transform(false) after generate_dwarf(true)
     for n in [1usize, 3] {
         let wasm = wgen::families::build_leb_x(n, 0, 8, true, false);
@@ -310,7 +395,7 @@ pub fn run(args: &Args) -> i32 {
     }
     let cases = cases(args);
     ev.rule = "function counts and body sizes on both sides of the 1/2/3-byte LEB boundaries x DWARF {4, 5 naming file 0, 5 naming file 1} x {one line sequence per function, one sequence spanning all} x \
-        subprogram ranges {body, whole code entry} x {unchanged, gc removing an unexported function, two instructions inserted}: DWARF is synthesized with gimli 0.32 (one row per instruction, line number = \
+        function ends as {offset-form high_pc, address-form high_pc, DW_AT_ranges list on the unit} x {unchanged, gc removing an unexported function, two instructions inserted}: DWARF is synthesized with gimli 0.32 (one row per instruction, line number = \
         global instruction ordinal), walrus runs with generate_dwarf(true), the output DWARF is read back with gimli 0.32 and every row / subprogram is compared with the position its instruction / function \
         really has in the output (iso correspondence). non-trivial = walrus moved, resized or edited code"
         .into();
